@@ -131,9 +131,10 @@ fn case_strategy(tier: Tier) -> BoxedStrategy<AdaptiveCase> {
         });
     let sim_case = (
         any::<bool>(),
-        1usize..=3,
+        // min_limit 0 is legal: the limit may then reach 0 and nobody may be admitted
+        prop_oneof![1 => Just(0usize), 4 => 1usize..=3],
         0usize..=3,
-        1usize..=4,
+        0usize..=4,
         prop::collection::vec(caller, 2..=callers_hi),
         prop::collection::vec(any::<u8>(), 0..=40),
         any::<bool>(),
